@@ -16,7 +16,15 @@ def tar(argv, cwd=None):
     import common
     import re
     status, out = run_cli(TapeArchiveCli().run, argv, cwd=cwd)
-    out = re.sub(r"(?<![0-9])1 octet(?!s)", "1 octets", out).replace("\t1 block.", "\t1 blocks.")
+    lines = out.split("\n")
+    for k, ln in enumerate(lines):
+        cols = ln.split("\t")
+        if len(cols) >= 6 and cols[-2] == "1 octet":
+            cols[-2] = "1 octets"
+        if len(cols) >= 6 and cols[-1] == "1 block.":
+            cols[-1] = "1 blocks."
+        lines[k] = "\t".join(cols)
+    out = "\n".join(lines)
     if "Too much data" not in out:
         for line in common.LAST["stderr"].splitlines():
             if "Too much data" in line:
@@ -26,7 +34,10 @@ def tar(argv, cwd=None):
 
 TAPE_CONFUSABLE = ["bas", "csv", "BAS", "bin", "a", "1", "12345678.123", "0.0", "bas.csv", "csv.bas", "csv.bas,a", "x.csv", "x.CSV", "a.b", ".bas", ".b", ".csv",
                    # more than 8 characters of name, more than 3 of extension: stored (and reported) truncated
-                   "longfilename.bas", "a.data", "verylongnamenoext", "abcdefghi", "x.basic", "ninechars.csvx", "y.bas,ab"]
+                   "longfilename.bas", "a.data", "verylongnamenoext", "abcdefghi", "x.basic", "ninechars.csvx", "y.bas,ab",
+                   # letters beyond ASCII whose upper case IS ascii (Python's str.upper): stored under that name — STRASSE.BAS, DISK.DAT,
+                   # SOFT.BIN, FILE.CSV; the model's upper-casing is ASCII only: such names are answered `unmodelled`, the oracles judge
+                   "stra\u00dfe.bas", "d\u0131sk.dat", "\u017foft.bin", "\ufb01le.csv", "prog.ba\u017f,a"]
 
 
 def gen_name(rng, used, ext_choices=None):
